@@ -279,6 +279,9 @@ class ChangeScenario(Scenario):
         env.memo['pipeline'] = p
         env.memo.setdefault('incarnations', []).append((env.now, opid))
         p.start()
+        pending = env.memo.pop('admit_on_start', None)
+        if pending is not None:
+            self._action('admit', [pending])(env)
         return p
 
     def setup(self, env: Env) -> None:
@@ -363,6 +366,31 @@ class ChangeScenario(Scenario):
                     env.memo['stopping'] = p.task
                     env.memo['stopping_opid'] = p.opid
                 self.start_when_stopped(env)
+            elif action == 'admit':
+                # the API server asks the operator's admission webhook about an UPDATE of the object (somebody runs `kubectl edit` and saves):
+                # the request is served by the running process with the very memories its watchers use - possibly before they have listed anything
+                p = env.memo.get('pipeline')
+                obj = w.get(K, 'ns', args[0])
+                if p is not None and obj is not None:
+                    from kopf._cogs.structs import ephemera, references
+                    from kopf._core.engines import admission
+                    from kv.harness.op import resource_of
+                    ins = references.Insights()
+                    ins.webhook_resources.add(resource_of(K))
+                    req = {'apiVersion': 'admission.k8s.io/v1', 'kind': 'AdmissionReview',
+                           'request': {'uid': f'req-{env.count("admit")}', 'kind': {'group': K.group, 'version': K.version, 'kind': K.kind},
+                                       'resource': {'group': K.group, 'version': K.version, 'resource': K.plural}, 'subResource': None,
+                                       'name': args[0], 'namespace': 'ns', 'operation': 'UPDATE', 'userInfo': {'username': 'u', 'uid': 'x', 'groups': []},
+                                       'dryRun': False, 'object': json.loads(json.dumps(obj)), 'oldObject': json.loads(json.dumps(obj))}}
+
+                    async def serve() -> None:
+                        rsp = await admission.serve_admission_request(req, settings=p.settings, memories=p.memories, memobase=ephemera.AnyMemo(ephemera.Memo()),
+                                                                      registry=p.registry, insights=ins, indices=p.indexers.indices)    # type: ignore[arg-type]
+                        env.log('admitted', name=args[0], allowed=rsp['response']['allowed'])
+                    env.spawn(p.opid, serve(), name=f'admission request for {args[0]}')
+            elif action == 'restartadmit':      # ... the first thing that happens to the new process, before its watcher has listed the objects
+                env.memo['admit_on_start'] = args[0]
+                self._action('restart', [])(env)
             elif action == 'stop':
                 p = env.memo.get('pipeline')
                 if p is not None:
